@@ -15,6 +15,7 @@ int vf_munmap(void *a, size_t len);
 void *vf_mmap(void *a, size_t len, int prot, int flags, int fd, off_t off) { void *p = mmap(a, len, prot, flags, fd, off); if (p != MAP_FAILED) { pthread_mutex_lock(&map_mu); live_maps++; pthread_mutex_unlock(&map_mu); } return p; }
 int vf_munmap(void *a, size_t len) { pthread_mutex_lock(&map_mu); live_maps--; pthread_mutex_unlock(&map_mu); return munmap(a, len); }
 static int count_fds(void) { DIR *d = opendir("/proc/self/fd"); int n = 0; struct dirent *e; while ((e = readdir(d))) if (e->d_name[0] != '.') n++; closedir(d); return n - 1; }
+static int count_threads(void) { DIR *d = opendir("/proc/self/task"); int n = 0; struct dirent *e; while ((e = readdir(d))) if (e->d_name[0] != '.') n++; closedir(d); return n; }
 static int count_dir(const char *p) { DIR *d = opendir(p); if (!d) return -1; int n = 0; struct dirent *e; while ((e = readdir(d))) if (strcmp(e->d_name, ".") && strcmp(e->d_name, "..")) n++; closedir(d); return n; }
 static char g_tmp[300]; static char g_fsdir[300];
 
@@ -110,9 +111,9 @@ out:
 	close(fd[0]); close(fd[1]);
 }
 static void sc_sorter(rcase *c) {
-	/* var: bits0-1 budget class (0: everything in memory, 1: 2 entries/chunk, 2: 1 entry/chunk), bit2 pool, bits3-4 failing key (0 none, 1 'a' inside chunk/final, 2 'b') */
-	int budget = c->var & 3, pool = (c->var >> 2) & 1; static int failkey; failkey = ((c->var >> 3) & 3) - 1;
-	struct mtbl_threadpool *tp = pool ? mtbl_threadpool_init(2) : NULL;
+	/* var: bits0-1 budget class (0: everything in memory, 1: 3 entries/chunk, 2: 1 entry/chunk), bits2-3 pool (0 none, 1 two threads, 2 a pool object with zero threads), bits4-5 failing key (0 none, 1 'a', 2 'b') */
+	int budget = c->var & 3, pool = (c->var >> 2) & 3; static int failkey; failkey = ((c->var >> 4) & 3) - 1;
+	struct mtbl_threadpool *tp = pool == 1 ? mtbl_threadpool_init(2) : pool == 2 ? mtbl_threadpool_init(0) : NULL;
 	struct mtbl_sorter_options *so = mtbl_sorter_options_init();
 	mtbl_sorter_options_set_temp_dir(so, g_tmp);
 	mtbl_sorter_options_set_max_memory(so, budget == 0 ? 100000 : budget == 1 ? 2 * 19 + 1 : 1);
@@ -165,7 +166,7 @@ out:
 }
 static void sc_pool(rcase *c) {
 	/* pooled writer(s) sharing a pool, destroyed at every point */
-	struct mtbl_threadpool *tp = mtbl_threadpool_init(1 + c->var % 3); int fd[2] = { tbl_memfd(), tbl_memfd() }; struct mtbl_writer *w[2] = { 0 };
+	struct mtbl_threadpool *tp = mtbl_threadpool_init(c->var % 4);      /* 0 = a pool object with threading disabled */ int fd[2] = { tbl_memfd(), tbl_memfd() }; struct mtbl_writer *w[2] = { 0 };
 	struct mtbl_writer_options *o = mtbl_writer_options_init(); mtbl_writer_options_set_block_size(o, 1024); mtbl_writer_options_set_threadpool(o, tp); mtbl_writer_options_set_compression(o, MTBL_COMPRESSION_LZ4);
 	uint8_t *big = tbl_val(9, 700);
 	POINT();
@@ -188,11 +189,11 @@ static void run_scenario(rcase *c) {
 static uint64_t n_leakfree;
 static void check_case(rcase *c) {
 	vh_case_begin(render, c);
-	size_t heap[4]; int fds[4], maps[4];
+	size_t heap[4]; int fds[4], maps[4], thr[4];
 	sigjmp_buf jb; bool aborted = false;
 	for (int rep = 0; rep < 3 && !aborted; rep++) {
 		if (VH_TRY_ASSERT(jb)) { run_scenario(c); VH_END_ASSERT(); } else aborted = true;
-		heap[rep] = __sanitizer_get_current_allocated_bytes(); fds[rep] = count_fds(); maps[rep] = live_maps;
+		heap[rep] = __sanitizer_get_current_allocated_bytes(); fds[rep] = count_fds(); maps[rep] = live_maps; thr[rep] = count_threads();
 	}
 	if (aborted) {
 		/* a library assertion stopped the scenario: this is "the process stops", not a call sequence that ends with everything destroyed */
@@ -201,6 +202,7 @@ static void check_case(rcase *c) {
 		if (heap[2] != heap[1]) { vh_violation("heap", "heap bytes in use grow by %zd on every repetition of the scenario (leak)", (ssize_t) (heap[2] - heap[1])); __lsan_do_recoverable_leak_check(); }
 		if (fds[2] != fds[1]) vh_violation("fd", "open descriptors grow by %d on every repetition of the scenario", fds[2] - fds[1]);
 		if (maps[2] != maps[1]) vh_violation("mapping", "reader mappings grow by %d on every repetition of the scenario", maps[2] - maps[1]);
+		if (thr[2] != thr[1]) vh_violation("thread", "threads grow by %d on every repetition of the scenario (a thread was never joined)", thr[2] - thr[1]);
 		int left = count_dir(g_tmp); if (left != 0) vh_violation("tempfile", "%d files left in the sorter temp dir", left);
 		n_leakfree++;
 	}
@@ -217,11 +219,11 @@ int main(int argc, char **argv) {
 	{ char p[400]; snprintf(p, sizeof p, "%s/junk", g_fsdir); FILE *f = fopen(p, "w"); fputs("not a table\n", f); fclose(f); }
 	rcase c;
 	if (vh_case_arg) { if (sscanf(vh_case_arg, "L:%c:%d:%d:%d", &c.fam, &c.var, &c.stop, &c.order) == 4) check_case(&c); goto done; }
-	static const struct { char fam; int nvar; int norder; } FAM[] = { { 'W', 4, 2 }, { 'R', 6, 2 }, { 'M', 6, 2 }, { 'S', 32, 2 }, { 'F', 4, 2 }, { 'P', 3, 2 } };
+	static const struct { char fam; int nvar; int norder; } FAM[] = { { 'W', 4, 2 }, { 'R', 6, 2 }, { 'M', 6, 2 }, { 'S', 64, 2 }, { 'F', 4, 2 }, { 'P', 4, 2 } };
 	uint64_t idx = 0;
 	for (unsigned f = 0; f < sizeof FAM / sizeof *FAM; f++) for (int var = 0; var < FAM[f].nvar; var++) for (int order = 0; order < FAM[f].norder; order++) {
 		if (FAM[f].fam == 'S' && (var & 3) == 3) continue;
-		if (FAM[f].fam == 'S' && ((var >> 3) & 3) == 3) continue;
+		if (FAM[f].fam == 'S' && (((var >> 2) & 3) == 3 || ((var >> 4) & 3) == 3)) continue;
 		/* learn the number of abandon points */
 		c = (rcase) { FAM[f].fam, var, 1 << 30, order };
 		sigjmp_buf jb; int K = 0;
@@ -235,7 +237,7 @@ int main(int argc, char **argv) {
 	}
 done:
 	vh_count("scenarios_checked_leak_free", n_leakfree);
-	if (vh_shard == 0) vh_sample("L:S:10:5:0 = sorter, 1 entry per chunk, merge callback failing for key 'a', abandoned after the 4th add, iterator path");
+	if (vh_shard == 0) vh_sample("L:S:18:5:0 = sorter, 1 entry per chunk, no pool, merge callback failing for key 'a', abandoned after the 4th add, iterator path");
 	{ char cmd[700]; snprintf(cmd, sizeof cmd, "rm -rf '%s' '%s'", g_tmp, g_fsdir); if (system(cmd)) {} }
 	return vh_finish();
 }
